@@ -46,8 +46,9 @@
         names = gopn(o);
         for (i = 0; i < names.length; i++) {
           n = names[i];
-          // otto: getOwnPropertyDescriptor(f, "caller") and (errorObject, "stack") escape Run as a Go
-          // panic (accessor stored under a data mode, cf. DESIGN.md section 5 #30; not a C17 matter).
+          // The per-function `caller` accessor and the per-Error `stack` accessor are not described:
+          // at the pinned commit getOwnPropertyDescriptor on them escaped Run as a Go panic (since
+          // repaired), and describing them would add two getter objects per function to every dump.
           // Both getters are observed through probes instead (ingredients caller, error).
           if ((n === "caller" && typeof o === "function") || (n === "stack" && cls === "[object Error]")) {
             out[out.length] = me + "." + n + " (not described)"; continue;
@@ -62,7 +63,7 @@
             else { v = val(v); }
             out[out.length] = me + "." + n + (d.writable ? " W" : " -") + (d.enumerable ? "E" : "-") + (d.configurable ? "C " : "- ") + v;
           } else {
-            out[out.length] = me + "." + n + " A" + (d.enumerable ? "E" : "-") + (d.configurable ? "C" : "-") + " get=" + val(d.get) + " set=" + val(d.set);
+            out[out.length] = me + "." + n + " A" + (d.enumerable ? "E" : "-") + (d.configurable ? "C" : "-") + " get=" + typeof d.get + ":" + val(d.get) + " set=" + typeof d.set + ":" + val(d.set);
           }
         }
       }
